@@ -54,6 +54,13 @@ fn join_prog() -> Cmd {
     .unwrap()
 }
 
+fn all_prog() -> Cmd {
+    serde_json::from_value(json!({"k":"all","id":1,"tid":2,"cs":[
+        {"tid":3,"c":{"k":"chain","id":4,"tid":5,"root":{"k":"req","tag":1,"val":1},"stages":[],"sink":{"tag":2}}},
+        {"tid":6,"c":{"k":"chain","id":7,"tid":8,"root":{"k":"req","tag":3,"val":1},"stages":[],"sink":{"tag":4}}}]}))
+    .unwrap()
+}
+
 fn log_json(v: &ViewModel) -> Vec<Value> {
     v.log
         .iter()
@@ -189,7 +196,11 @@ fn drive(ctl: &Arc<Ctl>, k: usize, case: &MtCase) -> Driven {
 
 fn table_for(scn: &str) -> Table {
     Table {
-        progs: vec![if scn == "stream_bridge" { stream_prog() } else { join_prog() }],
+        progs: vec![match scn {
+            "stream_bridge" => stream_prog(),
+            "all_core" => all_prog(),
+            _ => join_prog(),
+        }],
         follow: Default::default(),
         legacy: false,
     }
@@ -295,7 +306,7 @@ fn run_stream_bridge(case: &MtCase, controlled: bool) -> Value {
 }
 
 fn run_join_core(case: &MtCase, controlled: bool) -> Value {
-    let _ctx = install_case(table_for("join_core"));
+    let _ctx = install_case(table_for(&case.scenario));
     let core = Arc::new(Core::<VApp>::new());
     let effs = core.process_event(Event::Run(0));
     let mut reqs: Vec<crux_core::Request<crate::app::VOp>> =
@@ -371,7 +382,125 @@ fn run_join_core(case: &MtCase, controlled: bool) -> Value {
 pub fn run_mt(case: &MtCase, controlled: bool) -> Value {
     match case.scenario.as_str() {
         "stream_bridge" => run_stream_bridge(case, controlled),
-        "join_core" => run_join_core(case, controlled),
+        "join_core" | "all_core" => run_join_core(case, controlled),
         other => panic!("unknown scenario {other}"),
     }
+}
+
+/// Free-running stress: the same scenarios on real threads without the controller, many iterations
+/// with swept start offsets; every iteration is judged by the same sequential-order aggregate.
+/// Complements the forced schedules where a race window lies inside one segment between two points.
+pub fn run_stress(scenario: &str, threads: usize, iters: usize) -> Value {
+    let base = MtCase { name: "stress".into(), scenario: scenario.into(), threads, sched: vec![], preempt: None };
+    let reference = run_mt(&base, false)["agg"].clone();
+    let mut bad = 0usize;
+    let mut first = Value::Null;
+    for it in 0..iters {
+        let r = match scenario {
+            "stream_bridge" => stress_stream(threads, it),
+            _ => stress_core(scenario, threads, it),
+        };
+        if r != reference {
+            bad += 1;
+            if first.is_null() {
+                first = json!({"iteration": it, "agg": r});
+            }
+        }
+    }
+    json!({"summary": true, "stress": true, "scenario": scenario, "threads": threads, "iterations": iters,
+           "bad": bad, "first_bad": first, "ref_agg": reference})
+}
+
+fn spin(n: usize) {
+    for _ in 0..n {
+        std::hint::spin_loop();
+    }
+}
+
+fn stress_stream(k: usize, it: usize) -> Value {
+    let _ctx = install_case(table_for("stream_bridge"));
+    let bridge = Bridge::<VApp>::new(Core::new());
+    let out = bridge.process_event(&opts().serialize(&Event::Run(0)).unwrap()).expect("run");
+    let reqs: Vec<crux_core::bridge::Request<EffectFfi>> = opts().deserialize(&out).unwrap();
+    let id = reqs[0].id.0;
+    let barrier = std::sync::Barrier::new(k);
+    let results: Vec<Value> = std::thread::scope(|sc| {
+        let hs: Vec<_> = (0..k)
+            .map(|i| {
+                let (bridge, barrier) = (&bridge, &barrier);
+                sc.spawn(move || {
+                    barrier.wait();
+                    spin(if i == 0 { it % 97 } else { (it / 97) % 97 } * 3);
+                    match catch_unwind(AssertUnwindSafe(|| bridge.handle_response(id, &opts().serialize(&(10 + i as u32)).unwrap()))) {
+                        Ok(Ok(b)) => {
+                            let r: Vec<crux_core::bridge::Request<EffectFfi>> = opts().deserialize(&b).unwrap();
+                            json!({"res":"ok","effs":r.len()})
+                        }
+                        Ok(Err(e)) => json!({"res": format!("{e}")}),
+                        Err(_) => json!({"res":"panic"}),
+                    }
+                })
+            })
+            .collect();
+        hs.into_iter().map(|h| h.join().unwrap_or(json!({"res":"panic"}))).collect()
+    });
+    let view: ViewModel = opts().deserialize(&bridge.view().unwrap()).unwrap();
+    let log = log_json(&view);
+    let p1 = match bridge.handle_response(id, &opts().serialize(&99u32).unwrap()) {
+        Ok(b) => {
+            let r: Vec<crux_core::bridge::Request<EffectFfi>> = opts().deserialize(&b).unwrap();
+            json!({"res":"ok","effs":r.len()})
+        }
+        Err(e) => json!({"res": format!("{e}")}),
+    };
+    let view2: ViewModel = opts().deserialize(&bridge.view().unwrap()).unwrap();
+    let noop = bridge.process_event(&opts().serialize(&Event::Noop).unwrap()).map(|b| b.len()).unwrap_or(9999);
+    let probe = json!({"late": p1, "log_growth": view2.log.len() - view.log.len(),
+                       "last": log_json(&view2).last().cloned(),
+                       "noop_bytes": noop, "xt": bridge.verif_executor_tasks(),
+                       "reg": bridge.verif_registry().len()});
+    aggregate(&results, &log, &probe)
+}
+
+fn stress_core(scenario: &str, k: usize, it: usize) -> Value {
+    let _ctx = install_case(table_for(scenario));
+    let core = Core::<VApp>::new();
+    let effs = core.process_event(Event::Run(0));
+    let mut reqs: Vec<Option<crux_core::Request<crate::app::VOp>>> =
+        effs.into_iter().map(|e| { let Effect::Op(r) = e; Some(r) }).collect();
+    let k = k.min(3).max(2);
+    let barrier = std::sync::Barrier::new(k);
+    let r1 = reqs[0].take();
+    let r2 = reqs[1].take();
+    let mut owned = vec![r1, r2, None];
+    let results: Vec<Value> = std::thread::scope(|sc| {
+        let hs: Vec<_> = (0..k)
+            .map(|i| {
+                let (core, barrier) = (&core, &barrier);
+                let mine = owned[i].take();
+                sc.spawn(move || {
+                    barrier.wait();
+                    spin(if i == 0 { it % 97 } else { (it / 97) % 97 } * 3);
+                    let r = catch_unwind(AssertUnwindSafe(|| match mine {
+                        Some(mut req) => match core.resolve(&mut req, 10 + i as u32) {
+                            Ok(e) => json!({"res":"ok","effs":e.len()}),
+                            Err(e) => json!({"res":format!("{e}")}),
+                        },
+                        None => json!({"res":"ok","effs":core.process_event(Event::Noop).len()}),
+                    }));
+                    r.unwrap_or_else(|_| json!({"res":"panic"}))
+                })
+            })
+            .collect();
+        hs.into_iter().map(|h| h.join().unwrap_or(json!({"res":"panic"}))).collect()
+    });
+    let view = core.view();
+    let log = log_json(&view);
+    let noop = core.process_event(Event::Noop).len();
+    let probe = json!({"noop_effs": noop, "xt": core.verif_executor_tasks()});
+    let total: u64 = results.iter().map(|r| r["effs"].as_u64().unwrap_or(0)).sum();
+    let res_only: Vec<Value> = results.iter().map(|r| json!(r["res"])).collect();
+    let mut agg = aggregate(&res_only, &log, &probe);
+    agg["total_effs"] = json!(total);
+    agg
 }
